@@ -72,8 +72,13 @@ class Node(fm.TimeComponent):
 
     def _initialize(self):
         self.calls.append("I")
+        bad = self.spec.get("bad_input")  # injected metadata conflict: [input index, "units"|"grid"]
         for i in range(self.nin):
-            self.inputs.add(name=f"in{i}", time=self.time, grid=fm.NoGrid(), units=self.in_units)
+            units, grid = self.in_units, fm.NoGrid()
+            if bad and bad[0] == i:
+                units = "s" if bad[1] == "units" else units
+                grid = fm.NoGrid(1) if bad[1] == "grid" else grid
+            self.inputs.add(name=f"in{i}", time=self.time, grid=grid, units=units)
         for j in range(self.nout):
             self.outputs.add(name=f"out{j}", time=self.time, grid=fm.NoGrid(), units=self.units)
         pulls = [f"in{i}" for i in range(self.nin)] if self.spec.get("initial_pull", True) else []
@@ -81,7 +86,8 @@ class Node(fm.TimeComponent):
 
     def _connect(self, start_time):
         self.calls.append("C")
-        self.try_connect(start_time, push_data={f"out{j}": self.value(j, 0) for j in range(self.nout)})
+        push = {} if self.spec.get("no_initial_push") else {f"out{j}": self.value(j, 0) for j in range(self.nout)}
+        self.try_connect(start_time, push_data=push)
         if self.status == fm.ComponentStatus.CONNECTED:
             for name, d in self.connector.in_data.items():
                 if d is not None:
